@@ -178,3 +178,204 @@ fn p_ext_walk_lax() {
     kani::cover!(count == 3);
     kani::cover!(stop.is_some() && w.consumed == 8);
 }
+
+// ---------------------------------------------------------------------------------------------------------------------------
+// IP boundary (C03, C06, C07): executable mirror of the Verus contracts of Ipv6Slice / Ipv4Slice / IpSlice::from_slice
+// (contracts/net/ipv6_slice.rs.vx, spec/vspec.rs `w4_strict`), written from RFC 8200 / RFC 791 / RFC 4302 and the property texts.
+// ---------------------------------------------------------------------------------------------------------------------------
+
+#[derive(Clone, Copy, PartialEq, Eq, Debug)]
+pub struct RefLen {
+    pub required: usize,
+    pub len: usize,
+    pub source: LenSource,
+    pub layer: err::Layer,
+    pub offset: usize,
+}
+#[derive(Clone, Copy, PartialEq, Eq, Debug)]
+pub enum RefIpErr {
+    Len(RefLen),
+    Version(u8),
+    Ihl(u8),
+    HopByHopNotAtStart,
+    AuthZeroPayloadLen,
+}
+#[derive(Clone, Copy, PartialEq, Eq, Debug)]
+pub struct RefIpOk {
+    pub header_len: usize,
+    pub ext_len: usize,
+    pub payload_from: usize,
+    pub payload_to: usize,
+    pub ip_number: u8,
+    pub fragmented: bool,
+    pub source: LenSource,
+}
+
+/// RFC 8200: fixed 40 byte header, payload length counts everything behind it; the crate's documented fallback: a payload
+/// length of zero with data behind the header means "to the end of the slice" (then the slice is the length source)
+pub fn ref_ipv6_strict(b: &[u8], max_headers: usize) -> Option<Result<RefIpOk, RefIpErr>> {
+    if b.len() < 40 {
+        return Some(Err(RefIpErr::Len(RefLen { required: 40, len: b.len(), source: LenSource::Slice, layer: err::Layer::Ipv6Header, offset: 0 })));
+    }
+    if b[0] >> 4 != 6 {
+        return Some(Err(RefIpErr::Version(b[0] >> 4)));
+    }
+    let plen = u16::from_be_bytes([b[4], b[5]]) as usize;
+    let to_end = plen == 0 && b.len() > 40;
+    let end = if to_end { b.len() } else { 40 + plen };
+    if end > b.len() {
+        return Some(Err(RefIpErr::Len(RefLen { required: end, len: b.len(), source: LenSource::Slice, layer: err::Layer::Ipv6Packet, offset: 0 })));
+    }
+    let source = if to_end { LenSource::Slice } else { LenSource::Ipv6HeaderPayloadLen };
+    let w = ref_walk(b[6], &b[40..end], max_headers);
+    if w.consumed == usize::MAX {
+        return None; // more extension headers than the bound of the harness
+    }
+    Some(match w.fault {
+        None => Ok(RefIpOk { header_len: 40, ext_len: w.consumed, payload_from: 40 + w.consumed, payload_to: end, ip_number: w.next, fragmented: w.frag, source }),
+        Some(RefFault::HopByHopNotAtStart) => Err(RefIpErr::HopByHopNotAtStart),
+        Some(RefFault::AuthZeroPayloadLen) => Err(RefIpErr::AuthZeroPayloadLen),
+        // C07: the data available to the extension header was limited by `source`; offsets count from the start of the IP packet
+        Some(RefFault::Len { layer, required, len, offset }) => Err(RefIpErr::Len(RefLen { required, len, source, layer, offset: offset + 40 })),
+    })
+}
+
+/// RFC 791 (+ RFC 4302 authentication header as the only IPv4 "extension")
+pub fn ref_ipv4_strict(b: &[u8]) -> Result<RefIpOk, RefIpErr> {
+    let short = |required, layer| RefIpErr::Len(RefLen { required, len: b.len(), source: LenSource::Slice, layer, offset: 0 });
+    if b.len() < 20 {
+        return Err(short(20, err::Layer::Ipv4Header));
+    }
+    if b[0] >> 4 != 4 {
+        return Err(RefIpErr::Version(b[0] >> 4));
+    }
+    let ihl = b[0] & 0xf;
+    if ihl < 5 {
+        return Err(RefIpErr::Ihl(ihl));
+    }
+    let h = ihl as usize * 4;
+    if b.len() < h {
+        return Err(short(h, err::Layer::Ipv4Header));
+    }
+    let tl = u16::from_be_bytes([b[2], b[3]]) as usize;
+    if tl < h {
+        return Err(RefIpErr::Len(RefLen { required: h, len: tl, source: LenSource::Ipv4HeaderTotalLen, layer: err::Layer::Ipv4Packet, offset: 0 }));
+    }
+    if b.len() < tl {
+        return Err(short(tl, err::Layer::Ipv4Packet));
+    }
+    let fragmented = (b[6] & 0x20 != 0) || (u16::from_be_bytes([b[6] & 0x1f, b[7]]) != 0);
+    let source = LenSource::Ipv4HeaderTotalLen;
+    if b[9] != 51 {
+        return Ok(RefIpOk { header_len: h, ext_len: 0, payload_from: h, payload_to: tl, ip_number: b[9], fragmented, source });
+    }
+    let rest = &b[h..tl];
+    let ah_short = |required| RefIpErr::Len(RefLen { required, len: rest.len(), source, layer: err::Layer::IpAuthHeader, offset: h });
+    if rest.len() < 12 {
+        return Err(ah_short(12));
+    }
+    if rest[1] == 0 {
+        return Err(RefIpErr::AuthZeroPayloadLen);
+    }
+    let a = (rest[1] as usize + 2) * 4;
+    if rest.len() < a {
+        return Err(ah_short(a));
+    }
+    Ok(RefIpOk { header_len: h, ext_len: a, payload_from: h + a, payload_to: tl, ip_number: rest[0], fragmented, source })
+}
+
+fn off(sub: &[u8], s: &[u8]) -> usize {
+    (sub.as_ptr() as usize).wrapping_sub(s.as_ptr() as usize)
+}
+fn len_of(e: &err::LenError) -> RefIpErr {
+    RefIpErr::Len(RefLen { required: e.required_len, len: e.len, source: e.len_source, layer: e.layer, offset: e.layer_start_offset })
+}
+fn pay_of(p: &IpPayloadSlice, s: &[u8], header_len: usize, ext_len: usize) -> RefIpOk {
+    RefIpOk { header_len, ext_len, payload_from: off(p.payload, s), payload_to: off(p.payload, s) + p.payload.len(), ip_number: p.ip_number.0, fragmented: p.fragmented, source: p.len_source }
+}
+/// C07 lets a decoder always name the slice as length source; any other source must be the real one
+fn same(real: Result<RefIpOk, RefIpErr>, expected: Result<RefIpOk, RefIpErr>) -> bool {
+    match (real, expected) {
+        (Err(RefIpErr::Len(a)), Err(RefIpErr::Len(b))) => {
+            a.required == b.required && a.len == b.len && a.layer == b.layer && a.offset == b.offset && (a.source == b.source || a.source == LenSource::Slice)
+        }
+        (a, b) => a == b,
+    }
+}
+
+fn v6_slice(s: &[u8]) -> Result<RefIpOk, RefIpErr> {
+    match Ipv6Slice::from_slice(s) {
+        Ok(v) => Ok(pay_of(v.payload(), s, v.header().slice().len(), v.extensions().slice().len())),
+        Err(err::ipv6::SliceError::Len(e)) => Err(len_of(&e)),
+        Err(err::ipv6::SliceError::Header(err::ipv6::HeaderError::UnexpectedVersion { version_number })) => Err(RefIpErr::Version(version_number)),
+        Err(err::ipv6::SliceError::Exts(err::ipv6_exts::HeaderError::HopByHopNotAtStart)) => Err(RefIpErr::HopByHopNotAtStart),
+        Err(err::ipv6::SliceError::Exts(err::ipv6_exts::HeaderError::IpAuth(_))) => Err(RefIpErr::AuthZeroPayloadLen),
+    }
+}
+fn v4_slice(s: &[u8]) -> Result<RefIpOk, RefIpErr> {
+    match Ipv4Slice::from_slice(s) {
+        Ok(v) => Ok(pay_of(v.payload(), s, v.header().slice().len(), v.extensions().auth.map(|a| a.slice().len()).unwrap_or(0))),
+        Err(err::ipv4::SliceError::Len(e)) => Err(len_of(&e)),
+        Err(err::ipv4::SliceError::Header(err::ipv4::HeaderError::UnexpectedVersion { version_number })) => Err(RefIpErr::Version(version_number)),
+        Err(err::ipv4::SliceError::Header(err::ipv4::HeaderError::HeaderLengthSmallerThanHeader { ihl })) => Err(RefIpErr::Ihl(ihl)),
+        Err(err::ipv4::SliceError::Exts(_)) => Err(RefIpErr::AuthZeroPayloadLen),
+    }
+}
+fn ip_slice(s: &[u8]) -> Result<RefIpOk, RefIpErr> {
+    use err::ip::{HeaderError as H, SliceError as E};
+    match IpSlice::from_slice(s) {
+        Ok(IpSlice::Ipv4(v)) => Ok(pay_of(v.payload(), s, v.header().slice().len(), v.extensions().auth.map(|a| a.slice().len()).unwrap_or(0))),
+        Ok(IpSlice::Ipv6(v)) => Ok(pay_of(v.payload(), s, v.header().slice().len(), v.extensions().slice().len())),
+        Err(E::Len(e)) => Err(len_of(&e)),
+        Err(E::IpHeaders(err::ip::HeadersError::Ip(H::UnsupportedIpVersion { version_number }))) => Err(RefIpErr::Version(version_number)),
+        Err(E::IpHeaders(err::ip::HeadersError::Ip(H::Ipv4HeaderLengthSmallerThanHeader { ihl }))) => Err(RefIpErr::Ihl(ihl)),
+        Err(E::IpHeaders(err::ip::HeadersError::Ipv4Ext(_))) => Err(RefIpErr::AuthZeroPayloadLen),
+        Err(E::IpHeaders(err::ip::HeadersError::Ipv6Ext(err::ipv6_exts::HeaderError::HopByHopNotAtStart))) => Err(RefIpErr::HopByHopNotAtStart),
+        Err(E::IpHeaders(err::ip::HeadersError::Ipv6Ext(err::ipv6_exts::HeaderError::IpAuth(_)))) => Err(RefIpErr::AuthZeroPayloadLen),
+    }
+}
+
+/// C03/C06/C07, bounded (all inputs <= 64 B with version nibble 6, <= 3 extension headers): `Ipv6Slice::from_slice` and
+/// `IpSlice::from_slice` return exactly the reference boundary resp. the reference fault (layer, offset, lengths, length source)
+#[kani::proof]
+#[kani::unwind(5)]
+fn p_ipv6_boundary_strict() {
+    let mut b: [u8; 64] = kani::any();
+    let l: usize = kani::any();
+    kani::assume(l <= 64);
+    b[0] = 0x60 | (b[0] & 0xf);
+    let s = &b[..l];
+    let expected = match ref_ipv6_strict(s, 4) {
+        Some(e) => e,
+        None => {
+            kani::assume(false);
+            return;
+        }
+    };
+    assert!(same(v6_slice(s), expected), "Ipv6Slice::from_slice differs from the RFC 8200 reference boundary");
+    if l > 0 {
+        assert!(same(ip_slice(s), expected), "IpSlice::from_slice (IPv6) differs from the RFC 8200 reference boundary");
+    }
+    kani::cover!(matches!(expected, Ok(RefIpOk { ext_len: 8, .. })));
+    kani::cover!(matches!(expected, Err(RefIpErr::Len(RefLen { offset: 40, source: LenSource::Slice, .. }))));
+    kani::cover!(matches!(expected, Err(RefIpErr::Len(RefLen { offset: 48, source: LenSource::Ipv6HeaderPayloadLen, .. }))));
+}
+
+/// C03/C06/C07, bounded (all inputs <= 48 B with version nibble 4): `Ipv4Slice::from_slice` and `IpSlice::from_slice`
+#[kani::proof]
+#[kani::unwind(4)]
+fn p_ipv4_boundary_strict() {
+    let mut b: [u8; 48] = kani::any();
+    let l: usize = kani::any();
+    kani::assume(l <= 48);
+    b[0] = 0x40 | (b[0] & 0xf);
+    let s = &b[..l];
+    let expected = ref_ipv4_strict(s);
+    assert!(same(v4_slice(s), expected), "Ipv4Slice::from_slice differs from the RFC 791 reference boundary");
+    if l > 0 {
+        assert!(same(ip_slice(s), expected), "IpSlice::from_slice (IPv4) differs from the RFC 791 reference boundary");
+    }
+    kani::cover!(matches!(expected, Ok(RefIpOk { ext_len: 12, .. })));
+    kani::cover!(matches!(expected, Err(RefIpErr::Len(RefLen { layer: err::Layer::IpAuthHeader, .. }))));
+    kani::cover!(matches!(expected, Err(RefIpErr::Len(RefLen { source: LenSource::Ipv4HeaderTotalLen, layer: err::Layer::Ipv4Packet, .. }))));
+}
